@@ -11,7 +11,7 @@ RULE = ("cases are up to 3 classes (K0: int/str/list/optional fields, getters, s
         "methods, methods returning self/Self, a method taking another instance; K1: a field of class type with methods "
         "reaching through it; K2: same member names as K0 with different behaviour) with randomised constants, plus a "
         "history of up to 15 steps (construct, alias, method call, chained calls, field read/write/op-assign, write through a "
-        "nested field, pass to a function, store in / read from a list, `is`, replace a class-typed field, replace a list-typed field by a fresh / shared / outside list and push through one holder, SNAPSHOT a field / element / class-typed field into a module variable - through `modify` inside a function or by a plain declaration - and write the source afterwards); after every "
+        "nested field, pass to a function, store in / read from a list, `is`, replace a class-typed field, replace a list-typed field by a fresh / shared / outside list and push through one holder, calls whose argument list holds a call of the same / another method on another / the same object, SNAPSHOT a field / element / class-typed field into a module variable - through `modify` inside a function or by a plain declaration - and write the source afterwards); after every "
         "step the `n` of every live K0/K2 object is printed. Oracle = reference interpreter with an object heap. Non-trivial "
         "= >= 2 instances of one class and an update through an alias that is read through another reference; distinct by "
         "program text")
@@ -46,6 +46,9 @@ def classes(g):
            ("share_l", [("other", ("cls", "Self"))], None, [("setf", SELF, "l", F(V("other"), "l"))]),
            ("take_l", [("v", ("list", "int"))], None, [("setf", SELF, "l", V("v"))]),
            ("twin", [], ("cls", "Self"), [("return", ("new", "Self", [("bin", "+", F(SELF, "n"), I(1)), F(SELF, "s")]))]),
+           # a method whose RESULT can be an argument of the same method on another object
+           ("sum_with", [("v", "int")], "int", [("setf", SELF, "n", ("bin", "+", F(SELF, "n"), V("v"))), ("return", F(SELF, "n"))]),
+           ("linked", [("other", ("cls", "Self"))], ("cls", "Self"), [("setf", SELF, "n", ("bin", "+", F(SELF, "n"), F(V("other"), "n"))), ("return", SELF)]),
            # one method READS the module variable gk, another one has a PARAMETER called gk
            ("plus_gk", [], "int", [("return", ("bin", "+", F(SELF, "n"), V("gk")))]),
            ("times_gk", [("gk", "int")], "int", [("return", ("bin", "*", F(SELF, "n"), V("gk")))]),
@@ -94,7 +97,7 @@ def cases(draw):
     copies = []
     steps = g.int(3, 15)
     for step in range(steps):
-        ops = [(3, "snapshot"), (2, "gk"), (3, "new0"), (2, "alias"), (4, "method"), (2, "chain"), (3, "fieldw"), (2, "fieldr"), (2, "is"), (2, "fn"),
+        ops = [(3, "snapshot"), (2, "gk"), (3, "nested-call"), (3, "new0"), (2, "alias"), (4, "method"), (2, "chain"), (3, "fieldw"), (2, "fieldr"), (2, "is"), (2, "fn"),
                (3, "new1"), (1, "new2"), (1, "list"), (2, "absorb"), (1, "twin"), (1, "opt"), (3, "listfield")]
         if k1s:
             ops += [(3, "k1op")]
@@ -103,7 +106,23 @@ def cases(draw):
         if lists:
             ops += [(2, "listop")]
         op = g.weighted(ops)
-        if op == "gk":
+        if op == "nested-call":
+            # a call of a method whose ARGUMENT LIST holds a call of the same / another method on another (or the same) object
+            a, b, c = g.choice(k0s), g.choice(k0s), g.choice(k0s)
+            k = g.choice(["same-method", "same-method-object-result", "other-method", "three-deep", "same-receiver"])
+            g.label("nested-call:" + k + (":distinct" if a != b else ":same-object"))
+            if k == "same-method":
+                stmts.append(("print", ("mcall", V(a), "sum_with", [("mcall", V(b), "sum_with", [I(g.int(1, 5))])])))
+            elif k == "same-method-object-result":
+                stmts.append(("print", F(("mcall", V(a), "linked", [("mcall", V(b), "linked", [V(c)])]), "n")))
+            elif k == "other-method":
+                stmts.append(("print", ("mcall", V(a), "sum_with", [("mcall", V(b), "get_n", [])])))
+            elif k == "three-deep":
+                stmts.append(("print", ("mcall", V(a), "sum_with", [("mcall", V(b), "sum_with", [("mcall", V(c), "sum_with", [I(1)])])])))
+            else:
+                stmts.append(("print", ("mcall", V(a), "sum_with", [("mcall", V(a), "sum_with", [I(g.int(1, 5))])])))
+            alias_write_then_read = alias_write_then_read or aliased
+        elif op == "gk":
             g.label("method-reads-module-variable-named-like-a-parameter")
             k = g.choice(["build", "plus", "times", "assign"])
             if k == "build" and len(k0s) < 6:
